@@ -153,7 +153,7 @@ int main(int argc, char **argv) {
     hx::assume_note("convergence within 100 iterations on model problems and Richardson's asymptotic rate are NOT decided (floating-point long-run behaviour)");
     std::vector<Cfg> cfgs;
     for (int k=1;k<=(T?4:3);++k) for (int left=0;left<2;++left) {
-        for (std::string s : {"cg","fgmres","idrs","richardson"}) if (!left) { Cfg c; c.solver=s; c.maxiter=k; c.left=false; cfgs.push_back(c); if (s=="idrs") { c.s=1; cfgs.push_back(c); c.s=2; c.flag=true; cfgs.push_back(c); } if (s=="fgmres") { c.M=1; cfgs.push_back(c); } }
+        for (std::string s : {"cg","fgmres","idrs","richardson"}) if (!left) { Cfg c; c.solver=s; c.maxiter=k; c.left=false; cfgs.push_back(c); if (s=="idrs") { c.s=1; cfgs.push_back(c); c.flag=true; cfgs.push_back(c); /* s=1 with residual smoothing: the omega step (every (s+1)-th iteration) is reached at k=2 */ c.s=2; cfgs.push_back(c); } if (s=="fgmres") { c.M=1; cfgs.push_back(c); } }
         for (std::string s : {"bicgstab","gmres","lgmres","bicgstabl"}) { Cfg c; c.solver=s; c.maxiter=k; c.left=left; cfgs.push_back(c); if (s=="gmres"||s=="lgmres") { c.M=1; cfgs.push_back(c); } if (s=="bicgstabl") { c.L=1; cfgs.push_back(c); c.L=2; c.flag=true; cfgs.push_back(c); } }
     }
     if (!T) { std::vector<Cfg> keep; for (auto &c : cfgs) if (!(c.solver=="bicgstabl" && (c.L!=1 || c.maxiter>1))) keep.push_back(c); cfgs=keep; }
